@@ -108,6 +108,11 @@ def direct(seed, tier, model, stats):
                 b = ripasso.applyInverseRCFilter(x, SR, kind, fc, n, DCgain=dc)
                 if np.max(np.abs(a - b)) > TOL * km * N:
                     fails.append({"what": f"order -{n} is not the compensation of order {n} (max diff {np.max(np.abs(a - b)):.3e})", "call": label})
+                # ... and the compensation of order -n is the filter of order n (same DC gain)
+                a = ripasso.applyInverseRCFilter(x + 0.5, SR, kind, fc, -n, DCgain=dc)
+                b = ripasso.applyRCFilter(x + 0.5, SR, kind, fc, n, DCgain=dc)
+                if np.max(np.abs(a - b)) > TOL * km * N:
+                    fails.append({"what": f"the compensation of order -{n} is not the filter of order {n} (max diff {np.max(np.abs(a - b)):.3e})", "call": label})
             # HP with its default DC gain 0
             if kind == "HP":
                 tested["hp_default"] += 1
@@ -151,6 +156,16 @@ def direct(seed, tier, model, stats):
                 fails.append({"what": f"custom transfer function: {lab} does not restore bin {k}: {e:.3e} (N={N}, {len(fr)} knots)",
                               "call": "applyCustomTransferFunction", "tf_freqs": fr.tolist(), "tf_amp": amp.tolist()})
                 break
+        # history: an RC round trip for the same (N, SR) right after the custom transfer function was used
+        kind2, fc2, o2 = r.choice(["HP", "LP"]), SR * 0.12, r.choice([1, 2])
+        H2 = H_doc(kind2, SR, fc2, o2, 1, N)
+        k2 = cond(H2, N)
+        y = ripasso.applyInverseRCFilter(ripasso.applyRCFilter(x, SR, kind2, fc2, o2, DCgain=1), SR, kind2, fc2, o2, DCgain=1)
+        e, k = spec_diff(y, x, N)
+        tested["roundtrips"] += 1
+        if e > TOL * k2 * scale * N:
+            fails.append({"what": f"after a custom transfer function call with the same (N={N}, SR={SR}): inverse(filter(x)) of {kind2} order {o2} "
+                                  f"does not restore bin {k}: {e:.3e}", "call": "applyCustomTransferFunction then applyRCFilter"})
     # argument checks
     x = np.ones(8)
     for dcg in (0, -1, -0.5):
